@@ -623,6 +623,11 @@ func writeReplay(vdir, prop string, o *Oblig, env *Env, repo string, u *Unit) re
 			rr = runReplayTest(repo, src)
 		}
 	}
+	if o.Result != "unsat" && u != nil && strings.HasPrefix(o.Fn, "RingBuffer.") {
+		if src, ok := ringReplayTest(env, u, o); ok {
+			rr = runReplayTest(repo, src)
+		}
+	}
 	if o.Kind == "bounded" {
 		src, _ := os.ReadFile(filepath.Join(vdir, "bounded", strings.TrimPrefix(o.Name, "bounded:")))
 		rr = replayResult{Attempted: true, Reproduced: true, Test: string(src), Extra: []string{"-run", "^TestVerifBounded$", "-v"}, Output: o.Output,
